@@ -34,7 +34,7 @@ import universe
 COQ_TARGETS = ["theories/Props/C07.vo", "theories/Model/BuildTables.vo", "theories/Model/CoreTables.vo",
                "theories/Props/C05Bridge.vo", "theories/Model/GraphBridgeEq.vo"]
 COQ_TARGETS = COQ_TARGETS + [t for t in c17_hints.COQ_TARGETS if t not in COQ_TARGETS]
-THEOREMS = ["C07_build_total", "C07_no_raw_level", "C07_all_depths", "C07_string_alias_lazy"]
+THEOREMS = ["C07_build_total", "C07_no_raw_level", "C07_all_depths", "C07_string_alias_lazy", "C07_all_depths_complete"]
 EDGES = ["opt", "list", "dict", "tuple", "bar"]
 
 
